@@ -35,11 +35,20 @@ type AService struct {
 	NP      string    `json:"np"`
 	Pol     string    `json:"pol"`
 	Count   int       `json:"count"`
-	CPU     int64     `json:"cpu"`
-	Mem     int64     `json:"mem"`
-	Sto     int64     `json:"sto"`
+	CPU     Quantity  `json:"cpu"`
+	Mem     Quantity  `json:"mem"`
+	Sto     Quantity  `json:"sto"`
 	Exposes []AExpose `json:"exposes"`
 }
+
+// Quantity is <<hi, lo>> = hi * 2^20 + lo: TLC integers are 32 bit, leased quantities are not.
+type Quantity [2]int64
+
+func (q Quantity) value() uint64 { return uint64(q[0])<<20 + uint64(q[1]) }
+
+func quantity(v int64) Quantity { return Quantity{v >> 20, v & (1<<20 - 1)} }
+
+var unsetQuantity = Quantity{-1, 0}
 
 type ASettings struct {
 	CPU     [2]int `json:"cpu"`
@@ -107,9 +116,9 @@ func group(r ARound) (*manifest.Group, error) {
 			Env:   []string{"FOO=bar", "AKASH_OWNER"},
 			Count: uint32(s.Count),
 			Resources: atypes.ResourceUnits{
-				CPU:     &atypes.CPU{Units: atypes.NewResourceValue(uint64(s.CPU))},
-				Memory:  &atypes.Memory{Quantity: atypes.NewResourceValue(uint64(s.Mem))},
-				Storage: &atypes.Storage{Quantity: atypes.NewResourceValue(uint64(s.Sto))},
+				CPU:     &atypes.CPU{Units: atypes.NewResourceValue(s.CPU.value())},
+				Memory:  &atypes.Memory{Quantity: atypes.NewResourceValue(s.Mem.value())},
+				Storage: &atypes.Storage{Quantity: atypes.NewResourceValue(s.Sto.value())},
 			},
 		}
 		for _, e := range s.Exposes {
